@@ -25,6 +25,7 @@ def parseOp (w : Nat) (s : String) : Option Op :=
   | 'm', [o, s] => some (.assignMove o s)
   | 'A', [o, n] => some (.allocate o n)
   | 'F', [o, n, v] => some (.allocateFill o n v)
+  | 'f', [o, n, v] => some (.ctorUnits o (List.replicate n v))      -- buffer(count, fill): same storage rule as buffer(ptr, size)
   | 'W', [o, a] => some (.writeData o a us)
   | _, _ => none
 
